@@ -130,8 +130,8 @@ class Tokenizer:
                     break
 
                 if tok.is_exact_type(","):
-                    if start is None:
-                        # empty argument: hand the comma to the parser, which reports it
+                    if not string.strip():
+                        # empty (or blank) argument: hand the comma to the parser, which reports it
                         self._call_macro = False
                         return tok
                     break
